@@ -141,8 +141,16 @@ def run(chk):
     vlib.pure_check(chk, ops, oracle, rule, "Users.initUsers vs user.c:init_users")
     ops2 = gen_slot_ops(chk)
     vlib.pure_check(chk, ops2, oracle, rule, "Users.findUserByIp/findAvailableUser vs user.c", sequential=True)
+    # where netmask and pool come from: the real main() of iodined on generated command lines (tunnel_ip[/netmask] in every form inet_addr
+    # and atoi accept or refuse); every configuration tunnel() is started with must have 8..30 bits and the documented pool
+    import maincheck
+    maincheck.run(chk, "C18", n_cli=0)
+    chk.cov["rule"] += "; main(): generated command lines for iodined through the real option handling (checks/maincheck.py)"
     chk.cov["exhaustive"] = False
 
 
 def replay(chk, path):
+    import maincheck
+    if maincheck.is_main_replay(path):
+        return maincheck.replay(chk, path)
     return vlib.pure_replay(chk, path, oracle_factory())
